@@ -370,9 +370,71 @@ def fam_two_objects(case):
             "states": len(steps), "transitions": tr, "traces": len(steps)}
 
 
+
+
+# ---------------------------------------------------------------------------
+# weighted distances that equal N exactly (C06-Q: an in-place sentinel N that
+# is "restored" by value destroys a genuine distance N in the cached matrix)
+
+_WQ = [("path_lengths", {"link_attribute": "w"}),
+       ("closeness", {"link_attribute": "w"}),
+       ("average_path_length", {"link_attribute": "w"}),
+       ("global_efficiency", {"link_attribute": "w"}),
+       ("diameter", {}),
+       ("path_lengths", {}),
+       ("closeness", {})]
+
+
+def _wn_net(n, directed, gap):
+    """path 0-1-..-(n-1) whose weights sum to exactly n; with gap an extra
+    isolated node (so inf entries coexist with the distance n)"""
+    from pyunicorn.core import Network
+    N = n + (1 if gap else 0)
+    A = np.zeros((N, N), dtype=int)
+    W = np.zeros((N, N))
+    w = [1.0] * (n - 1)
+    w[-1] = float(N - (n - 2))
+    for i in range(n - 1):
+        A[i, i + 1] = 1
+        W[i, i + 1] = w[i]
+        if not directed:
+            A[i + 1, i] = 1
+            W[i + 1, i] = w[i]
+    net = Network(adjacency=A, directed=directed, silence_level=3)
+    net.set_link_attribute("w", W)
+    return net
+
+
+def fam_weighted_n(case):
+    n, directed, gap, qi = case
+    viol = []
+    prist = {}
+    for j, (m, kw) in enumerate(_WQ):
+        prist[j] = outcome(lambda o, q: getattr(o, q[0])(**q[1]),
+                           _wn_net(n, directed, gap), (m, kw))
+    obj = _wn_net(n, directed, gap)
+    q1 = _WQ[qi]
+    call = lambda o, q: getattr(o, q[0])(**q[1])
+    outcome(call, obj, q1)
+    ev = 1
+    for j, q2 in enumerate(_WQ):
+        got = outcome(call, obj, q2)
+        ev += 1
+        if not same_outcome(got, prist[j]):
+            viol.append(V(
+                "Network.%s[%s]:changed-by:%s[%s]:distance-equals-N" % (
+                    q2[0], ",".join(q2[1]), q1[0], ",".join(q1[1])),
+                "n=%d directed=%s isolated=%s: %s after %s differs from a "
+                "pristine object" % (n, directed, gap, q2, q1),
+                brief(got), brief(prist[j])))
+    return {"viol": viol, "evals": ev, "sig": (n, directed, gap, qi),
+            "states": 1, "transitions": ev, "traces": 1}
+
+
 FAMILIES = {"after_q1": fam_after_q1, "pairs": fam_pairs,
             "shared": fam_shared, "ctor": fam_ctor,
-            "two_objects": fam_two_objects}
+            "two_objects": fam_two_objects,
+            "weighted_n": fam_weighted_n}
 
 
 def run(ctx):
@@ -406,6 +468,13 @@ def run(ctx):
                 desc="A, another object B of the same class, A again "
                 "(queries and each mutator) vs A alone")
     ctx.explore("after_q1", aq, chunk=4, desc="q1 then all queries")
+    if not only:
+        ctx.explore("weighted_n",
+                    [[n, d, g, qi] for n in (3, 4, 5) for d in (False, True)
+                     for g in (False, True) for qi in range(len(_WQ))],
+                    chunk=6, desc="weighted shortest paths of length exactly "
+                    "N: q1 then every weighted/unweighted path query vs "
+                    "pristine objects")
     if thorough:
         ctx.explore("pairs", pairs, chunk=2, desc="all ordered pairs, each "
                     "on a fresh object")
